@@ -97,6 +97,11 @@ def merge(recs, rep, K, prop):
                 rep.finding_or_violation(fid, "discrepancy matching signature %s at %s" % (fid, x["key"]), {"engine": "e1", "signature": x["key"], "count": x["n"]})
             if fid in rep.known_hits:
                 rep.known_hits[fid] += x["n"] - 1
+    counts = {}
+    for x in recs:
+        if x["k"] == "count":
+            counts[x["system"] + ":" + x["key"]] = counts.get(x["system"] + ":" + x["key"], 0) + x["n"]
+    rep.coverage["model_branch_counts"] = counts
     uncovered = sorted(set((x["system"], x["fn"], x["sig"]) for x in recs if x["k"] == "uncovered"))
     samples = [x for x in recs if x["k"] == "sample"][:12]
     for s in samples:
